@@ -584,16 +584,4 @@ theorem docN_noSets :
 
 end Aux
 
-example : treeGet .newick {} docA [] {} (some 0) (some 0) none = .ok (treeA, { labels := ["a"], title := none }) :=
-  offset_spec .newick {} docA [] {} _ _ 0 0 _ _ docA_reads rfl rfl
-
-example : treeGet .newick {} docA [] {} (some (-1)) (some (-1)) none = .ok (treeA, { labels := ["a"], title := none }) :=
-  offset_neg_spec .newick {} docA [] {} _ [[treeA]] 0 0 [treeA] treeA docA_reads (by decide) rfl (by decide) rfl
-
-example : listGet .newick {} docA [] {} [treeA, treeA] (some 0) (some 0) = .ok ([treeA, treeA, treeA], { labels := ["a"], title := none }) :=
-  offset_list_spec .newick {} docA [] {} _ [treeA, treeA] _ 0 0 _ docA_reads rfl (by decide)
-
-example : nexusYield {} (coreOf docN [] {}) [] = nexusRead {} pseudoSink (coreOf docN [] {}) [] :=
-  reader_eq_yielder_partial {} rfl _ _ docN_noSets
-
 end DendroModel.C13
